@@ -88,7 +88,7 @@ def ref(oid):
 
 def lit_kind_for(rng, bits, allow_obj=True):
     n = len(bits)
-    kinds = ['bin', 'bools', 'tuple', 'bitarray']
+    kinds = ['bin', 'bools', 'tuple', 'bitarray', 'bitarray_le']
     if n % 4 == 0 and n:
         kinds += ['hex', 'hex']
     if n % 3 == 0 and n:
@@ -108,7 +108,7 @@ def rand_operand(rng, n=None, allow_obj=True):
 
 
 MEM_ROUTES = ['bin', 'auto_bin', 'auto_hex', 'bools', 'bitarray', 'bitarray_kw', 'bytes_len', 'bytes_off',
-              'slice', 'obj', 'uint', 'fromstring', 'auto_oct']
+              'slice', 'obj', 'uint', 'fromstring', 'auto_oct', 'bitarray_le', 'bitarray_le_kw']
 
 
 def mk(rid, cls, bits, route='bin', pos=NONE_I):
@@ -532,7 +532,7 @@ def c16_program(rng, lsb0=False):
             elif k < 0.85:
                 w = rand_bits(rng, n)
                 kind = lit_kind_for(rng, w)
-                if opn in ('rand', 'ror_', 'rxor') and kind == 'bitarray':
+                if opn in ('rand', 'ror_', 'rxor') and kind in ('bitarray', 'bitarray_le'):
                     kind = 'bools'
                 x = lit(kind, w)
             else:
